@@ -95,6 +95,8 @@ def ev(t, env):
         return (a | b) if t[1] == "BitOr" else (a & b)
     if k == "un" and t[1] == "Not":
         return 1 - ev(t[2], env)
+    if k == "pmval":
+        return t[1]
     if k == "phi":
         te_ = env.get("te")
         if te_ is None:
@@ -140,6 +142,18 @@ def ev(t, env):
             return ("Some", ev(a[1], env)) if c_ else ("None",)
         if nm == "then" and len(a) == 2:
             raise Und("then(closure)")
+        if nm in ("is_some_and", "is_none_or", "map_or") and len(a) >= 2:
+            # Option combinators with a predicate closure: the closure's body evaluated on the payload
+            v = ev(a[0], env)
+            if not isinstance(v, tuple):
+                raise Und("%s of a scalar" % nm)
+            if v == ("None",):
+                return {"is_some_and": 0, "is_none_or": 1}.get(nm) if nm != "map_or" else ev(a[1], env)
+            from . import canon
+            body = canon.apply_closure(mir.CURRENT, a[-1], ("pmval", v[1]))
+            if body is None:
+                raise Und("%s with an opaque predicate" % nm)
+            return ev(body, env)
         if nm in ("is_some", "is_none") and a:
             v = ev(a[0], env)
             if not isinstance(v, tuple):
@@ -300,7 +314,28 @@ def run(prog):
                 locs[v[2] if len(v) > 2 else v[1]] = order[i]
         ins = [cs for cs in te.calls if cs.callee.name == "insert" and "VarSet" in cs.callee.key()]
         seen = 0
+        def field_of(tgt):
+            for i, v in enumerate(r[4]):
+                sv = show(strip(v))
+                if sv.startswith("μ") and tgt.endswith("_" + sv.split("_")[-1]):
+                    return order[i]
+            return None
         for cs in ins:
+            # one insert whose target set is chosen by the assignment's value: `if value {&mut t} else {&mut f}`
+            a0 = strip(cs.args[0])
+            if isinstance(a0, tuple) and a0 and a0[0] == "gamma" and show(strip(a0[1])).endswith("as Some).0") and len(a0[2]) == 2:
+                done = 0
+                for lab, v in a0[2]:
+                    pol_ = 0 if lab == "0" else 1
+                    fld_ = field_of(show(strip(v)))
+                    if fld_ is None:
+                        continue
+                    done += 1
+                    seen += 1
+                    if (fld_ == "true_assignments") != (pol_ == 1):
+                        errs.append("line %d: an assignment Some(%s) is inserted into %s" % (cs.line, bool(pol_), fld_))
+                if done == 2:
+                    continue
             tgt = show(cs.args[0])
             fld = None
             for i, v in enumerate(r[4]):
@@ -327,14 +362,17 @@ def run(prog):
         fn = prog.find1(name=name, self_adt=PMT, unit="rsdd-lib")
         errs = []
         n = 0
-        for t in mir.subterms(fn.terms.ret):
+        from . import canon
+        # private helpers of the type and directly applied closures are looked through
+        whole = canon.beta(prog, canon.inline_local(prog, fn.terms.ret, lambda h: h.impl_self == PMT and "{closure" not in h.npath))
+        for t in mir.subterms(whole):
             if mir.is_call(t, "map") and len(t[2]) == 2:
-                src, clo = strip(t[2][0]), t[2][1]
+                src, clo = strip(t[2][0]), strip(t[2][1])
                 sets = {which_set(a) for x in mir.subterms(src) if x[0] == "call" for a in x[2]} - {None}
                 if not sets or not (isinstance(clo, tuple) and clo[0] == "agg" and clo[1] == "closure"):
                     continue
-                cf = [g for g in prog.lib_fns if g.npath == clo[2]]
-                rr = strip(cf[0].terms.ret) if cf else None
+                rr = canon.apply_closure(prog, clo, ("elem",))
+                rr = strip(rr) if rr is not None else None
                 if not (rr and mir.is_call(rr, "new") and len(rr[2]) == 2 and strip(rr[2][1])[0] == "const"):
                     errs.append("?literal constructor of %s not recognised" % clo[2].split("::")[-1])
                     continue
